@@ -819,9 +819,14 @@ func TestC12SteadyReader(t *testing.T) {
 		// enough output that the writer is kept busy for well over the send timeout even though the
 		// socket buffers (a few megabytes on loopback) let it run ahead of the reader
 		size := rapid.SampledFrom([]int{48 << 10, 64 << 10}).Draw(t, "message_bytes")
-		nmsg := int(3 * opt.SendTimeout / perFrame)
+		nmsg := int(3*opt.SendTimeout/perFrame) + (12<<20)/size // the buffers on the way may hold ~10 MB before a write blocks at all
 		desc := map[string]any{"mode": "steady-reader", "send_timeout": opt.SendTimeout.String(), "ping": opt.PingDuration.String(), "reader_per_frame": perFrame.String(), "handler_messages": nmsg, "message_bytes": size}
-		h := newRecHandler()
+		// several goroutines of the handler emit their share each: the next message is always
+		// waiting when the relay has written one, whatever the scheduler does
+		streams := rapid.IntRange(2, 4).Draw(t, "emitting_goroutines")
+		desc["emitting_goroutines"] = streams
+		h := &steadyHandler{streams: streams, perStream: (nmsg + streams - 1) / streams, pad: strings.Repeat("s", size)}
+		nmsg = h.perStream * streams
 		rig := newWSRig(opt, h)
 		defer rig.close()
 		c, err := dial(rig.url)
@@ -829,17 +834,12 @@ func TestC12SteadyReader(t *testing.T) {
 			t.Fatalf("dial: %v", err)
 		}
 		defer c.CloseNow()
-		var out []mocrelay.ServerMsg
-		pad := strings.Repeat("s", size)
-		for i := 0; i < nmsg; i++ {
-			out = append(out, mocrelay.NewServerNoticeMsg(fmt.Sprintf("steady %d %s", i, pad)))
-		}
-		h.setEmit(out)
 		ctx := context.Background()
 		if err := c.Write(ctx, websocket.MessageText, []byte(`["CLOSE","`+sentinelPrefix+`steady-emit"]`)); err != nil {
 			t.Skipf("decides nothing: %v", err)
 		}
 		next, worstGap := 0, time.Duration(0)
+		nextOf := make([]int, streams)
 		t0 := time.Now()
 		lastRead := t0
 		for {
@@ -866,11 +866,12 @@ func TestC12SteadyReader(t *testing.T) {
 				}
 				continue
 			}
-			want := fmt.Sprintf(`["NOTICE","steady %d `, next)
-			if !strings.HasPrefix(string(b), want) {
-				hx.Fail(t, ev.Failure{Property: "C12", Signature: "output-order", Clause: "every message the handler emits reaches the client, in emission order", Case: desc,
-					Observed: "frame starts with " + string(b[:40]), Expected: want})
+			var g, i int
+			if _, err := fmt.Sscanf(string(b[:40]), `["NOTICE","steady %d %d `, &g, &i); err != nil || g < 0 || g >= streams || i != nextOf[g] {
+				hx.Fail(t, ev.Failure{Property: "C12", Signature: "output-order", Clause: "every message the handler emits reaches the client, in emission order (per emitting goroutine)", Case: desc,
+					Observed: "frame starts with " + string(b[:40]), Expected: fmt.Sprintf("the next message of one of the %d streams (%v)", streams, nextOf)})
 			}
+			nextOf[g]++
 			next++
 			time.Sleep(perFrame)
 		}
@@ -880,6 +881,50 @@ func TestC12SteadyReader(t *testing.T) {
 		col.Label("mode:steady-reader")
 		col.Case(time.Since(t0) > opt.SendTimeout, hx.JSON(desc), func() any { return desc })
 	})
+}
+
+// steadyHandler: on the sentinel CLOSE, `streams` goroutines emit perStream large NOTICEs each
+// ("steady <stream> <index> <padding>"); when all are done the sentinel is echoed as a NOTICE.
+type steadyHandler struct {
+	streams, perStream int
+	pad                string
+}
+
+func (h *steadyHandler) ServeNostr(ctx context.Context, send chan<- mocrelay.ServerMsg, recv <-chan mocrelay.ClientMsg) error {
+	for {
+		select {
+		case <-ctx.Done():
+			return ctx.Err()
+		case m, ok := <-recv:
+			if !ok {
+				return mocrelay.ErrRecvClosed
+			}
+			c, is := m.(*mocrelay.ClientCloseMsg)
+			if !is {
+				continue
+			}
+			var wg sync.WaitGroup
+			for g := 0; g < h.streams; g++ {
+				wg.Add(1)
+				go func(g int) {
+					defer wg.Done()
+					for i := 0; i < h.perStream; i++ {
+						select {
+						case send <- mocrelay.NewServerNoticeMsg(fmt.Sprintf("steady %d %d %s", g, i, h.pad)):
+						case <-ctx.Done():
+							return
+						}
+					}
+				}(g)
+			}
+			wg.Wait()
+			select {
+			case send <- mocrelay.NewServerNoticeMsg(c.SubscriptionID):
+			case <-ctx.Done():
+				return ctx.Err()
+			}
+		}
+	}
 }
 
 // slowRec takes a little time per message, as a handler that stores does.
